@@ -270,7 +270,17 @@ def gen_value(rng, a, valid=True):
     n = rng.range(max(mn, 1), max(mn, 1, mx))
     # scalar strings also carry characters that mean something to the tokenizer ('=', '-', ...)
     alpha = WORDCH + '==-+/#(!' if a.kind == 's' else WORDCH
-    return ''.join(rng.choice(alpha) for _ in range(n))
+    v = ''.join(rng.choice(alpha) for _ in range(n))
+    if a.kind == 's' and rng.chance(1, 6):
+        # blanks are characters like any other: leading, inner, trailing, or nothing but blanks
+        where = rng.below(4)
+        v = (' ' + v) if where == 0 else (v + rng.choice([' ', '  ', '\t'])) if where == 1 else \
+            (v[:1] + ' ' + v[1:]) if where == 2 else ' ' * rng.range(1, 2)
+        if len(v) > max(mx, 1) and any(c[0] == 'maxlen' for c in a.checks):
+            v = v[:mx]
+        if len(v) < mn:
+            v = v + 'a' * (mn - len(v))
+    return v
 
 
 class Use:
